@@ -548,6 +548,210 @@ func c20RunDeadline(c c20DLCase) (sig, msg string) {
 	return "", ""
 }
 
+
+// ---------------------------------------------------------------------------- (f) a timed-out first call, then a retry
+
+type c20RetryCase struct {
+	TLS   bool `json:"tls"`
+	Bytes int  `json:"bytes"` // bytes of the client's first flight that have arrived when the first call is made
+	// Mid: the deadline passes while the first call is waiting for more bytes (after it has taken what
+	// had arrived); otherwise it has passed before the call is made
+	Mid bool `json:"mid"`
+}
+
+// c20RunRetryOnce: the server's first Read ends with a timeout; the application lifts the deadline
+// and reads again; meanwhile the rest of the client's first flight arrives. Returns how the first call
+// ended and whether handshake and ping/pong then succeeded.
+func c20RunRetryOnce(c c20RetryCase, direct bool) (first, retry, detail string) {
+	c20Setup()
+	sim := vfNewStream()
+	sim.monitor = false
+	var srv net.Conn
+	if direct {
+		if c.TLS {
+			srv = tls.Server(sim.ends[1], c20TLSSrv)
+		} else {
+			srv = tlcp.Server(sim.ends[1], c20TLCPSrv)
+		}
+	} else {
+		srv = NewProtocolSwitchServerConn(c20Listener(2), sim.ends[1])
+	}
+	var cli net.Conn
+	if c.TLS {
+		cli = tls.Client(sim.ends[0], c20TLSCli)
+	} else {
+		cli = tlcp.Client(sim.ends[0], c20TLCPCli)
+	}
+	defer func() {
+		sim.ends[0].Close()
+		sim.ends[1].Close()
+	}()
+	cliDone := make(chan error, 1)
+	go func() {
+		var err error
+		if p := vfRecover(func() {
+			if _, err = cli.Write([]byte("ping")); err != nil {
+				return
+			}
+			b := make([]byte, 4)
+			if _, err = io.ReadFull(cli, b); err == nil && string(b) != "pong" {
+				err = fmt.Errorf("client read %q", b)
+			}
+		}); p != "" {
+			err = errors.New("client panic: " + p)
+		}
+		cliDone <- err
+	}()
+	// the client has written its first flight and waits for the server
+	ok := false
+	for i := 0; i < 100000; i++ {
+		sim.mu.Lock()
+		ok = sim.ends[0].blocked > 0 && len(sim.ends[1].in) > 5
+		sim.mu.Unlock()
+		if ok {
+			break
+		}
+		time.Sleep(50 * time.Microsecond)
+	}
+	if !ok {
+		return "harness", "", "the client never sent its first flight"
+	}
+	sim.mu.Lock()
+	all := sim.ends[1].in
+	nb := c.Bytes
+	if nb > len(all) {
+		nb = len(all)
+	}
+	hold := append([]byte(nil), all[nb:]...)
+	sim.ends[1].in = append([]byte(nil), all[:nb]...)
+	sim.mu.Unlock()
+	type res struct {
+		n   int
+		err error
+		p   string
+	}
+	buf := make([]byte, 16)
+	call := func() chan res {
+		ch := make(chan res, 1)
+		go func() {
+			var r res
+			r.p = vfRecover(func() { r.n, r.err = srv.Read(buf) })
+			ch <- r
+		}()
+		return ch
+	}
+	var ch chan res
+	if c.Mid {
+		ch = call()
+		// the call has taken what had arrived and waits for more
+		for i := 0; i < 100000; i++ {
+			sim.mu.Lock()
+			w := sim.ends[1].blocked > 0 && len(sim.ends[1].in) == 0
+			sim.mu.Unlock()
+			if w {
+				break
+			}
+			time.Sleep(50 * time.Microsecond)
+		}
+		srv.SetDeadline(time.Now().Add(-time.Second))
+	} else {
+		srv.SetDeadline(time.Now().Add(-time.Second))
+		ch = call()
+	}
+	var r1 res
+	select {
+	case r1 = <-ch:
+	case <-time.After(10 * time.Second):
+		return "blocked", "", "the first call did not return although its deadline had passed"
+	}
+	if r1.p != "" {
+		return "panic", "", r1.p
+	}
+	var ne net.Error
+	switch {
+	case r1.err == nil:
+		first = "ok"
+	case errors.As(r1.err, &ne) && ne.Timeout():
+		first = "timeout"
+	default:
+		first = "error"
+		detail = r1.err.Error()
+	}
+	if first != "timeout" {
+		return first, "", detail
+	}
+	// the application lifts the deadline and tries again; the rest of the client's flight arrives
+	srv.SetDeadline(time.Time{})
+	sim.mu.Lock()
+	sim.ends[1].in = append(sim.ends[1].in, hold...)
+	sim.cond.Broadcast()
+	sim.mu.Unlock()
+	srvDone := make(chan error, 1)
+	go func() {
+		var err error
+		if p := vfRecover(func() {
+			got := 0
+			b := make([]byte, 4)
+			for got < 4 && err == nil {
+				var n int
+				n, err = srv.Read(b[got:])
+				got += n
+			}
+			if got == 4 {
+				err = nil
+				if string(b) != "ping" {
+					err = fmt.Errorf("server read %q", b)
+				} else {
+					_, err = srv.Write([]byte("pong"))
+				}
+			}
+		}); p != "" {
+			err = errors.New("server panic: " + p)
+		}
+		srvDone <- err
+	}()
+	var serr, cerr error
+	for i := 0; i < 2; i++ {
+		select {
+		case serr = <-srvDone:
+			if serr != nil {
+				sim.ends[1].Close()
+				sim.ends[0].Close()
+			}
+		case cerr = <-cliDone:
+		case <-time.After(15 * time.Second):
+			return first, "blocked", "the retry did not finish within 15 s"
+		}
+	}
+	if serr != nil || cerr != nil {
+		return first, "fail", fmt.Sprintf("server: %v; client: %v", serr, cerr)
+	}
+	return first, "ok", ""
+}
+
+func c20RunRetry(c c20RetryCase) (sig, msg string) {
+	d1, d2, dm := c20RunRetryOnce(c, true)
+	a1, a2, am := c20RunRetryOnce(c, false)
+	if d1 == "panic" || a1 == "panic" {
+		return "panic", dm + am
+	}
+	if d1 == "harness" || a1 == "harness" {
+		return "harness-error", dm + am
+	}
+	// A handshake that has failed, even with a timeout, is final for a stack, so the stack used directly
+	// does not recover; the adapter's first call times out before any stack exists. Hence: where the
+	// stack used directly recovers the adapter must too, and where nothing of the client's bytes had been
+	// taken when the first call timed out, the retry sees the first record from its first byte and must
+	// be routed by it and succeed.
+	if d1 == "timeout" && d2 == "ok" && !(a1 == "timeout" && a2 == "ok") {
+		return "adapter-differs-retry", fmt.Sprintf("first Read timed out with %d bytes of the client's first flight arrived (deadline passing during the call: %v), then the deadline was lifted and the application read again: against the stack directly the retry succeeds; through the adapter first call %s, retry %s (%s)", c.Bytes, c.Mid, a1, a2, am)
+	}
+	if c.Bytes == 0 && (a1 != "timeout" || a2 != "ok") {
+		return "retry-after-timeout", fmt.Sprintf("the first Read timed out before the client had sent anything (deadline passing during the call: %v); the deadline was lifted, the client sent its first flight and the application read again: first call %s, retry %s (%s)", c.Mid, a1, a2, am)
+	}
+	return "", ""
+}
+
 func TestVF_C20(t *testing.T) {
 	recA := vfRec("C20", "C20a-routing", "first record headers over all 256 major version bytes x minors {00,01,02,03,04,ff} x configurations {TLCP only, TLS only, both} x first call Read/Write x arrival chunkings; oracle: major 01 => *tlcp.Conn (or 'tlcp config not set'), 03 => *tls.Conn (or 'tls config not set'), anything else => unsupported-protocol error; non-trivial = major not in {1,3} or split header or absent configuration")
 	idx := 0
@@ -650,9 +854,39 @@ func TestVF_C20(t *testing.T) {
 		}
 	}
 	recE.SetExhaustive(true, "20 cases")
+
+	recF := vfRec("C20", "C20f-timeout-retry", "the server application's first Read ends with a timeout (deadline passed before the call, with the client still silent; or passing while the call waits, after 0..5 or 40 bytes of the client's first flight have arrived), then it lifts the deadline and reads again while the rest of the flight arrives; TLCP and TLS clients; oracle: where the stack used directly recovers the adapter does too, and when nothing had arrived at the timeout the retry is routed by the first record and handshake, ping and pong succeed; distinct = the case")
+	nF := 0
+	for _, isTLS := range []bool{false, true} {
+		for _, mid := range []bool{false, true} {
+			for _, nb := range []int{0, 1, 2, 3, 4, 5, 6, 40} {
+				if !mid && nb != 0 {
+					continue // an already expired deadline takes nothing: same as 0
+				}
+				c := c20RetryCase{TLS: isTLS, Bytes: nb, Mid: mid}
+				nF++
+				sig, msg := c20RunRetry(c)
+				if sig != "" {
+					recF.Violation(sig, c, "%s", msg)
+				}
+				recF.Eval(true, c, fmt.Sprintf("mid:%v", mid))
+			}
+		}
+	}
+	recF.SetExhaustive(true, fmt.Sprintf("%d cases", nF))
 }
 
 func init() {
+	vfRegisterReplay("C20f-timeout-retry", func(raw json.RawMessage) error {
+		var c c20RetryCase
+		if err := json.Unmarshal(raw, &c); err != nil {
+			return err
+		}
+		if sig, msg := c20RunRetry(c); sig != "" {
+			return fmt.Errorf("%s: %s", sig, msg)
+		}
+		return nil
+	})
 	vfRegisterReplay("C20a-routing", func(raw json.RawMessage) error {
 		var c c20RouteCase
 		if err := json.Unmarshal(raw, &c); err != nil {
